@@ -240,7 +240,7 @@ func (e *Engine) builtin(name string, args []Value, c *ssa.CallCommon) Value {
 		e.mapDelete(args[0].(*MapObj), args[1])
 		return nil
 	case "panic":
-		panic(&goPanic{val: args[0], msg: e.describe(args[0]), stack: e.stackNames()})
+		panic(&goPanic{pos: e.curPosStr(), val: args[0], msg: e.describe(args[0]), stack: e.stackNames()})
 	case "recover":
 		return e.doRecover()
 	case "print", "println":
@@ -279,6 +279,57 @@ func (e *Engine) builtin(name string, args []Value, c *ssa.CallCommon) Value {
 			}
 		}
 		return nil
+	case "String": // unsafe.String(ptr, len)
+		p := args[0].(Ptr)
+		n, ok := concInt(e.toInt64(args[1].(*smt.Term), c.Args[1].Type()))
+		if !ok {
+			e.unsupported("unsafe.String with symbolic length")
+		}
+		if n == 0 {
+			return Str{}
+		}
+		if p.Obj == nil || p.Obj.Parent == nil {
+			e.unsupported("unsafe.String on a pointer that is not an array element")
+		}
+		bs := make([]*smt.Term, n)
+		for i := 0; i < n; i++ {
+			bs[i] = e.load(e.sub(p.Obj.Parent, p.Obj.Idx+i)).(*smt.Term)
+		}
+		return e.mkStr(bs)
+	case "StringData":
+		s := args[0].(Str)
+		if s.Len() == 0 {
+			return Ptr{}
+		}
+		sl := e.bytesToSlice(e.strBytes(s))
+		return Ptr{Obj: e.sub(sl.Arr, 0)}
+	case "SliceData":
+		s := args[0].(Slice)
+		if s.Arr == nil {
+			return Ptr{}
+		}
+		if s.Cap == 0 {
+			return Ptr{Obj: e.newObj(s.Arr.T.Underlying().(*types.Array).Elem())}
+		}
+		return Ptr{Obj: e.sub(s.Arr, s.Off)}
+	case "Slice": // unsafe.Slice(ptr, len)
+		p := args[0].(Ptr)
+		n, ok := concInt(e.toInt64(args[1].(*smt.Term), c.Args[1].Type()))
+		if !ok {
+			e.unsupported("unsafe.Slice with symbolic length")
+		}
+		if p.Obj == nil {
+			return Slice{}
+		}
+		if p.Obj.Parent == nil {
+			if n <= 1 {
+				arr := e.newArrayObj(p.Obj.T, 1)
+				arr.Sub[0] = p.Obj
+				return Slice{Arr: arr, Len: n, Cap: n}
+			}
+			e.unsupported("unsafe.Slice on a pointer that is not an array element")
+		}
+		return Slice{Arr: p.Obj.Parent, Off: p.Obj.Idx, Len: n, Cap: n}
 	case "ssa:wrapnilchk":
 		p, _ := args[0].(Ptr)
 		if p.Obj == nil {
